@@ -56,7 +56,7 @@ def main():
         "setup_cmd": "cd /verif/govc && GOFLAGS=-mod=mod GOPROXY=off go build -o /verif/bin/govc .",
         "hooks": {
             "guard": "verif",
-            "enable": "-tags verif (adds only comment-only files zz_contracts_verif.go that carry the //@ contracts)",
+            "enable": "-tags verif (adds the comment-only files zz_contracts_verif.go that carry the //@ contracts, and keyper/shutterevents/zz_hooks_verif.go with eight unexported round-trip compositions MakeEvent(x.MakeABCIEvent(), h) used as observation points of C14)",
             "baseline_off_cmd": "cd /repo/rolling-shutter && GOFLAGS=-mod=mod GOPROXY=off go test -vet=off -count=1 -timeout 25m ./...",
             "source_commits": hook_commits,
             "add_only": True,
